@@ -345,6 +345,7 @@ def run(rep, facts, tier):
 
 
     rule_12_6(rep, fx)
+    rule_move_all(rep, fx, 'R12.7')
 
 
 PER_PARTICIPANT_STORES = ('participant_proxies', 'participant_last_life_signs', 'external_topic_readers', 'external_topic_writers',
@@ -430,3 +431,44 @@ def rule_12_6(rep, fx):
         and not any(callee_res(t).endswith(('::clear', '::retain', '::split_off', '::append', '::pop_first', '::pop_last', 'mem::take', 'mem::replace', 'mem::swap')) for _bb, t in mv.calls())
     rep.check(okr, 'R12.6', 'move_by_guid_prefix/range', 'removes from `from` only keys of from.range(guid_prefix.range())',
               'move_by_guid_prefix no longer selects exactly the keys of from.range(guid_prefix.range())', mv.where())
+
+
+ADAPTORS_OK = ('Iterator::map', 'Iterator::collect', 'IntoIterator::into_iter', 'Iterator::copied', 'Iterator::cloned', 'BTreeMap::<K, V, A>::keys', 'Iterator::next', 'Iterator::for_each')
+
+
+def rule_move_all(rep, fx, rid):
+    """move_by_guid_prefix is how the endpoints of a participant go to the attic and come back: it must move ALL of them (shared by C12 R12.7 and C11 R11.9)."""
+    rep.rule(rid, 'move_by_guid_prefix moves every entry of the participant: the keys it works on are all keys of from.range(guid_prefix.range()) (the iterator chain between the range '
+                  'and the loop contains no filtering, limiting or skipping adaptor), and each of them is removed from `from` and inserted into `to` under the same key; an entry left '
+                  'behind is a stale second copy that is restored or parked later in place of the live one')
+    mv = fx.find('discovery::discovery_db::move_by_guid_prefix')
+    rep.analysed(mv)
+    og = Origins(mv, transparent=False, summaries=False)
+    bad = []
+    for b in [mv]:
+        for bb, t in b.calls():
+            cr = callee_res(t)
+            if (cr.startswith('std::iter::') or 'Iterator' in cr or 'iter::' in cr) and not cr.endswith(ADAPTORS_OK) and not any(cr.endswith(x.split('::')[-1]) and x.split('::')[-1] in ('map', 'collect', 'into_iter', 'copied', 'cloned', 'next', 'for_each') for x in ADAPTORS_OK):
+                bad.append(cr.rsplit('::', 1)[-1])
+    # the removed key and the inserted key are the iterated key
+    rem = [(bb, t) for bb, t in mv.calls() if callee_res(t).endswith('BTreeMap::<K, V, A>::remove')]
+    ok_rem = len(rem) == 1 and _plain12(og.of_operand(rem[0][1]['args'][0], rem[0][0], 'term')) == ('param', 2)
+    ins_ok = False
+    for c in fx.closures_of(mv):
+        ogc = Origins(c, summaries=False)
+        for bb, t in c.calls():
+            if callee_res(t).endswith('BTreeMap::<K, V, A>::insert'):
+                from rdv.core import resolve_captures
+                m = resolve_captures(fx, c, ogc.of_operand(t['args'][0], bb, 'term'), summaries=False)
+                k = resolve_captures(fx, c, ogc.of_operand(t['args'][1], bb, 'term'), summaries=False)
+                v = ogc.of_operand(t['args'][2], bb, 'term')
+                ins_ok = term_has(m, lambda x: x == ('param', 3)) and term_has(k, lambda x: x[0] == 'call' and x[1].endswith('::next')) and _plain12(v) == ('param', 2)
+    rep.check(not bad and ok_rem and ins_ok, rid, 'move_by_guid_prefix/moves-all', 'all keys of the range; each removed from `from` and inserted into `to`',
+              'move_by_guid_prefix does not move every entry of the participant (adaptors in the key chain: %s; removal from `from`: %s; insertion of the removed value into `to` under '
+              'the iterated key: %s): an entry that is skipped stays behind as a stale copy' % (bad or 'none', ok_rem, ins_ok), mv.where())
+
+
+def _plain12(t):
+    while isinstance(t, tuple) and t and t[0] in ('ref', 'deref', 'copy', 'move') and len(t) > 1 and isinstance(t[1], tuple):
+        t = t[1]
+    return t
